@@ -73,7 +73,7 @@ def gen_case(r, index, tier):
         cents[0]["center"] = terms[0]["center"]             # a soft module placed on a (possibly fixed) terminal
     return {"engine": "c13", "die": die, "net": nl, "max_iter": r.weighted([(1, 2), (2, 1), (3, 1), (5, 2), (20, 3), (60, 2)]),
             "kappa": r.choice([0.4, 0.7, 1.0, 1.5]), "hist_seed": r.below(1 << 30), "with_die_net": True,
-            "squares": r.chance(0.3), "alias": r.chance(0.5)}
+            "squares": r.chance(0.3), "alias": r.chance(0.5), "peek": r.chance(0.4)}
 
 
 def units(case):
@@ -222,6 +222,10 @@ def _world(arg):
         # modules without centre start at the die centre; wire_length needs centres afterwards - fine
         pass
     W, H = d0.width, d0.height
+    if case.get("peek") and all(m.center is not None for m in d0.netlist.modules):
+        # a caller that looks at the cost of the input placement before relocating it
+        _ = d0.netlist.wire_length
+        _ = FR.total_intersection_area(d0)
     before = sem.netlist_sem(d0.netlist, roles=True, order_rects=True, centers=False)
     before_c = _centres(d0)
 
